@@ -189,3 +189,22 @@ def table_o_shape(facts, rep, rule, w):
                    "under a test of the occupant's metadata().is_dir()" if ok else
                    "AlreadyExists is not classified by the occupant's type", kinds.get(v, (0, b.span))[1])
     return n
+
+
+def mkdir_not_asked(facts, rep, rule, w, D):
+    """fs::create_dir is attempted without a prior stat (attempt, then classify AlreadyExists)"""
+    pb = facts.impl_methods(w.trait.rsplit("::", 1)[1], w.physical).get("create_dir")
+    n = 0
+    if pb is None:
+        return 0
+    inter = D.inter
+    for cb in inter.code_bodies(pb):
+        for blk in cb.calls():
+            if short(blk.term.callee() or "") == "fs::create_dir":
+                gs = D.guards(cb, blk.idx)
+                asked = [g for g in gs if any(x in repr(g) for x in ("fs::metadata", "Path::exists", "Path::is_dir", "symlink_metadata", "Path::metadata", "Path::try_exists"))]
+                n += 1
+                rep.ob(rule, pb.id, "mkdir is attempted without asking first", not asked, "" if not asked else
+                       "fs::create_dir is control-dependent on a prior stat: check-then-create loses the race and reports a raw "
+                       "AlreadyExists I/O error instead of DirectoryExists/FileExists", blk.term.line)
+    return n
